@@ -482,7 +482,11 @@ def run_scripted(rng, drv, profile, tid):
             do(ev0("Connect", c=spare))
             do(ev0("Cmd", c=spare, m=msg0(type="bind", appid=cl.app, side=cl.side)))
             do(ev0("Cmd", c=spare, m=msg0(type="open", mailbox=cl.mbox)))
-        elif y > 0.90 and drv.conn_flags()[spare]["up"]:
+        elif y > 0.88 and drv.conn_flags()[spare]["up"]:
+            # the second connection goes away, sometimes saying `close` first (its mailbox may be gone by now)
+            if rng.random() < 0.6:
+                do(ev0("Cmd", c=spare, m=msg0(type="close", mailbox=rng.choice([ABSENT, drv.conn_flags()[spare]["mboxId"]]),
+                                              mood=rng.choice(moods))))
             do(ev0("Drop", c=spare))
         m = command(cl, op)
         cl.pc += 1
